@@ -456,6 +456,7 @@ def run_parallel(binary, scenarios, scratch, workers, timeout, snapcount_every=3
             env = {"VERIF_SNAPCOUNT": "3"} if (k % snapcount_every == snapcount_every - 1) else {"VERIF_SNAPCOUNT": ""}
             d = os.path.join(scratch, "w%d" % k)
             os.makedirs(d, exist_ok=True)
+            env["VERIF_RL_RD"] = os.path.join(d, "rd.txt")   # RD lines for the Lean driver's `ready` engine (harness/readyrd.go)
             futs.append((ch, env, ex.submit(run_batch, binary, ch, d, timeout, env)))
         for ch, env, f in futs:
             for s, r in zip(ch, f.result()):
@@ -541,6 +542,12 @@ def run_suite(R, ctx, binary, f4=None):
     try:
         with core.Workdir() as wd:
             reports = run_parallel(binary, scen, wd, workers, 120 if quick else 2400)
+            rd_lines = []
+            for k in range(workers):
+                try:
+                    rd_lines += [l for l in open(os.path.join(wd, "w%d" % k, "rd.txt")).read().split("\n") if l.startswith("RD ")]
+                except OSError:
+                    pass
             # is the judge awake?  the same demonstration with the oracle pointed at an empty directory must be reported
             blind = run_batch(binary, [FIXED[0]], wd, 60, {"VERIF_RL_BLIND_DISK": "1"})[0]
             bad = [(s, r) for s, r in zip(scen, reports) if failing(r)]
@@ -573,6 +580,29 @@ def run_suite(R, ctx, binary, f4=None):
              "%d scenarios, %d failing, %d not judged; clause evaluations %s" % (len(scen), len(bad), len(errors), clauses))
     R.oblige("readyloop: the engine ran every scenario to its end and the node answered every request it must answer", "exploration",
              not errors and noresp == 0, "%d errors, %d missing responses%s" % (len(errors), noresp, (": " + str(errors[0].get("error"))[:300]) if errors else ""))
+    # tie (b) of the loop model: the model's replayWAL (ReadyLoop.replayRecs, what C08Ready.persist_before_externalise speaks about) against the real
+    # recovery functions on the raw WAL records + snapshot files of the node at the moment of every observed Send
+    rd_lines = rd_lines[:60000]
+    if rd_lines:
+        dd = core.run_driver(rd_lines, timeout=900)
+        core.negative_control(R, rd_lines, "ready")
+        rd_ok = not dd["mismatches"] and not dd["unknown"]
+        with_snap = sum(1 for l in rd_lines if l.split(" ")[2] != "-")
+        R.oblige("correspondence ready: ReadyLoop.replayRecs (the model's replayWAL) reconstructs the hard state, snapshot and entries that "
+                 "wal.ValidSnapshotEntries / LoadNewestAvailable / ReadAll read from the node's directories at the moment of a Send, and its view keeps "
+                 "the promise of the message (RD lines)", "correspondence", rd_ok,
+                 "%d lines (%d with snapshot files), %d mismatches, %d unknown" % (len(rd_lines), with_snap, len(dd["mismatches"]), len(dd["unknown"])))
+        R.add_cases(len(rd_lines), int(dd["summary"].get("positive", 0) or 0), samples=rd_lines[:2])
+        R.suites.append(dict(name="ready", lines=len(rd_lines), with_snapshot_files=with_snap, mismatches=len(dd["mismatches"]),
+                             driver_s=round(dd["seconds"], 1)))
+        for mm in (dd["mismatches"] + dd["unknown"])[:2]:
+            R.violation("ready-" + core.sha(mm), dict(
+                kind="impl-violates-spec", engine="ready", lines=[mm.split(" :: ", 1)[-1]], summary=mm[:500],
+                explanation="the loop model's replayWAL and the real recovery functions disagree on the same WAL records and snapshot files (or the "
+                            "view a restart reconstructs does not keep the promise of a message being sent): either the model the theorem "
+                            "C08Ready.persist_before_externalise is about is not the code's recovery, or the node externalised before persisting"))
+    else:
+        R.oblige("correspondence ready: RD lines were produced by the readyloop engine", "correspondence", False, "no RD lines")
     blind_ok = blind.get("result") == "violation"
     R.oblige("negative control readyloop: with the oracle pointed at an empty directory the vote of the demonstration scenario is reported", "control",
              blind_ok, "%s %s" % (blind.get("result"), (blind.get("violation") or {}).get("clause")))
